@@ -250,7 +250,7 @@ func genProg(r *vh.Rng) *Case {
 	return c
 }
 
-var surfaces = []string{"destruct", "destruct_assign", "spread", "spreadcall", "from", "map", "set", "promiseall", "yieldstar", "fromentries", "restdestruct"}
+var surfaces = []string{"destruct", "destruct_assign", "spread", "spreadcall", "from", "map", "set", "promiseall", "yieldstar", "fromentries", "restdestruct", "yieldstar_catch", "genforof_catch"}
 
 func genBuiltin(r *vh.Rng) *Case {
 	g := &gctx{r: r}
@@ -262,7 +262,9 @@ func genBuiltin(r *vh.Rng) *Case {
 	switch c.Surface {
 	case "destruct", "destruct_assign":
 		c.Want = r.Intn(4)
-	case "yieldstar":
+	case "genforof_catch":
+		c.Want = 1 + r.Intn(3)
+	case "yieldstar", "yieldstar_catch":
 		c.Want = 1 + r.Intn(3)
 		if c.It.TM == 1 {
 			c.It.TM = 0 // yield* hands the result object through without reading value
